@@ -6,6 +6,7 @@
 # exit 0 = no violation, 1 = violation, 2 = could not build/run.
 ROOT="$(cd "$(dirname "$0")/.." && pwd)"
 T="$1"; RUNS="${2:-1000000}"; SEED="${3:-0}"
+MAXLEN=2048; if [ "$T" = "graph_history" ]; then MAXLEN=512; fi
 SEED=$((SEED + 1))   # libFuzzer treats 0 as "random"
 export VERIF_ROOT="$ROOT" CARGO_NET_OFFLINE=true
 cd "$ROOT/fuzz" || exit 2
@@ -15,7 +16,7 @@ mkdir -p "$W/corpus" && cp corpus/"$T"/* "$W/corpus/" 2>/dev/null
 if ! cargo +nightly fuzz build -s none --fuzz-dir . "$T" >"$W/build.log" 2>&1; then
   echo "FUZZ BUILD FAILED"; tail -20 "$W/build.log"; rm -rf "$W"; exit 2
 fi
-cargo +nightly fuzz run -s none --fuzz-dir . "$T" "$W/corpus" -- -runs="$RUNS" -seed="$SEED" -len_control=0 -max_len=2048 -print_final_stats=1 -artifact_prefix="$W/" >"$W/out.log" 2>&1
+cargo +nightly fuzz run -s none --fuzz-dir . "$T" "$W/corpus" -- -runs="$RUNS" -seed="$SEED" -len_control=0 -max_len=$MAXLEN -print_final_stats=1 -artifact_prefix="$W/" >"$W/out.log" 2>&1
 RC=$?
 grep -E "^  failure |^VIOLATION " "$W/out.log"
 EXEC=$(grep -E "stat::number_of_executed_units" "$W/out.log" | awk '{print $2}')
